@@ -13,5 +13,6 @@ import MCHap.Properties.C05
 #print axioms MCHap.C05.dmCounts_eq_perms_mul_ordered
 #print axioms MCHap.C05.assemblePrior_perm
 #print axioms MCHap.C05.assemblePrior_zero
+#print axioms MCHap.C05.assemblePrior_eq_callPrior_flat
 #print axioms MCHap.C05.gamma_ratio_eq_rising
 #print axioms MCHap.C05.gamma_factorial
